@@ -62,6 +62,14 @@ impl FieldValue {
     }
 }
 
+/// Maximum nesting depth of embedded messages.
+///
+/// Decoders for recursive message types recurse once per nesting level, so
+/// this protects against stack overflow when decoding untrusted input. The
+/// value matches the default limit of the official Protocol Buffers
+/// implementations.
+const MAX_DEPTH: u32 = 100;
+
 /// Read a single field of a message.
 ///
 /// `Field`s are produced by iterating over fields of a message using
@@ -93,6 +101,9 @@ pub struct Field<'r, R: ReadValue> {
 
     /// Unconsumed field ID slot in the parent [`Fields`].
     unconsumed_field: &'r mut Option<u64>,
+
+    /// Nesting depth of the message this field belongs to.
+    depth: u32,
 }
 
 impl<'r, R: ReadValue> Field<'r, R> {
@@ -144,11 +155,15 @@ impl<'r, R: ReadValue> Field<'r, R> {
     ) -> Result<Fields<'_, impl ReadValue<Types = R::Types>>, ProtobufError> {
         match self.value {
             FieldValue::Len(len) => {
+                if self.depth >= MAX_DEPTH {
+                    return Err(self.error(ErrorKind::RecursionLimitExceeded));
+                }
                 self.consume_field()?;
                 Ok(Fields {
                     reader: self.reader.sub_limit(len),
                     context,
                     unconsumed_field: None,
+                    depth: self.depth + 1,
                 })
             }
             _ => Err(self.error(ErrorKind::FieldTypeMismatch)),
@@ -396,6 +411,9 @@ pub struct Fields<'r, R: ReadValue> {
     /// before being dropped. This is used to report an error when attempting
     /// to read the next field.
     unconsumed_field: Option<u64>,
+
+    /// Nesting depth of this message. The top-level message has depth 0.
+    depth: u32,
 }
 
 impl<'r, R: ReadValue> Fields<'r, R> {
@@ -408,6 +426,7 @@ impl<'r, R: ReadValue> Fields<'r, R> {
             reader: LimitReader::unbounded(reader),
             context,
             unconsumed_field: None,
+            depth: 0,
         }
     }
 
@@ -462,6 +481,7 @@ impl<'r, R: ReadValue> Fields<'r, R> {
             value,
             context: self.context,
             unconsumed_field: &mut self.unconsumed_field,
+            depth: self.depth,
         }))
     }
 }
